@@ -17,7 +17,7 @@ COMPONENTS = {
     'stub': ['distributed.Client / cluster -> FakeClient (submit, scatter, gather, loop); real distributed uses threads, sockets and the wall clock and cannot be made deterministic here',
              'selector/clock -> SimLoop'],
 }
-ASSUMPTIONS = {'C20': ['one awaiting producer per entry point (the documented usage)',
+ASSUMPTIONS = {'C20': ['one producer; it awaits its emits whenever the segment contains a buffering node (otherwise either)',
                        'tasks are pure; the fake cluster resolves futures nested in tuples/lists like distributed does']}
 RULE = {'C20': 'segments over map, starmap, accumulate (with/without start, returns_state), zip, buffer, partition, sliding_window, '
                'union, built twice from one spec (locally, and as scatter ... gather on DaskStream over the fake cluster) with per-task, '
@@ -89,7 +89,10 @@ def generate(prop, rng, seed, index, tier):
             if rng.random() < 0.5:
                 it['md'] = 1
             items.append(it)
-        producers.append({'entry': n['id'], 'await': True, 'start': rng.choice([0, 0.25]), 'items': items})
+        # without a buffering node the local twin is synchronous, so its order is the emission order even
+        # when the producer does not wait for its emits: then several elements are in flight on the cluster
+        aw = True if any(m['op'] == 'buffer' for m in g.graph) else rng.random() < 0.55
+        producers.append({'entry': n['id'], 'await': aw, 'start': rng.choice([0, 0.25]), 'items': items})
     lat = lambda: [rng.choice([0, 0, 0.25, 0.5, 1, 2, 3]) for _ in range(rng.randrange(1, 5))]   # noqa
     return {'format': 1, 'family': 'dask', 'property': 'C20', 'seed': seed, 'index': index, 'mode': 'async',
             'tiebreak': rng.choice(['fifo', 'lifo', 'seeded']), 'tiebreak_seed': rng.randrange(1000),
